@@ -294,6 +294,41 @@ def rebuilt_datatype_has_the_same_numbers(ctx):
     c03.exported_property_values_are_exact(ctx)
 
 
+@rule('C02.R10', min_instances=1)
+def every_rebuilt_datatype_is_marked_as_client_side(ctx):
+    """a datatype rebuilt from a description carries client=True at EVERY level (StructOf.check_type consults it: on the client
+    optional struct members may be left out): the function through which the DATATYPES constructors are called - the one the
+    container lambdas recurse into - sets the mark on what it built, on every path to its return.  A wrapper that marks only
+    the outermost object makes a nested struct refuse a value its top-level twin accepts"""
+    m = ctx.m
+    mod = m.modules.get(DT)
+    builders = []
+    for q, f in sorted(m.functions.items()):
+        if f.module is not mod or f.parent is not None or f.cls is not None:
+            continue
+        calls = [c for c in calls_in(f.node) if isinstance(c.func, ast.Subscript) and src(c.func.value) == 'DATATYPES']
+        if calls:
+            builders.append((f, calls))
+    if not builders:
+        raise AnchorMissing('no function calling DATATYPES[<type>](...) found in frappy.datatypes')
+    for f, calls in builders:
+        ctx.analysed(f)
+        cfg = CFG(f.node, m, f.module)
+        rd = ReachingDefs(cfg, f.node)
+        for c in calls:
+            st = next((a for a in ancestors(c) if isinstance(a, ast.stmt)), None)
+            names = {t.id for t in st.targets if isinstance(t, ast.Name)} if isinstance(st, ast.Assign) else set()
+            marks = [i for t, v, s2 in attr_stores(f.node) if t.attr == 'client' and isinstance(t.value, ast.Name) and t.value.id in names
+                     and isinstance(v, ast.Constant) and v.value is True for i in cfg.node_of(s2)]
+            rets = [i for r in body_walk(f.node) if isinstance(r, ast.Return) and r.value is not None and names_in(r.value) & names for i in cfg.ids(r)]
+            direct = isinstance(st, ast.Return)
+            ok = not direct and bool(marks) and bool(rets) and cfg.all_paths_pass(cfg.ids(st), rets, marks, exc=False)
+            ctx.check(ok, f'{f.qualname}:what is built from a description is marked client=True', c, 'client = True on every path from the constructor call to the return',
+                      f'`{src(c)}` builds a datatype that {f.name} returns without setting `.client = True` on it: the container constructors recurse through this '
+                      'function, so nested datatypes (a struct inside an array, a command argument) are not marked - on the client a nested struct refuses a value '
+                      'with an optional member left out, although its description allows it', f)
+
+
 @rule('C02.R6', min_instances=5)
 def text_form_pairing(ctx):
     """to_string override => from_string override; containers propagate unit=False"""
